@@ -114,6 +114,20 @@ type ST5 struct {
 	After int
 }
 
+// ST7: collections whose elements / map values are nil-able; values leave some
+// of them nil (a nil element is a value like any other: arrays, slices and maps
+// are replaced as a whole, and a key whose value is nil stays a key).
+type ST7 struct {
+	Name    string
+	Weights [2]*int
+	Groups  [3][]string
+	ByKey   map[string]*int
+	Lists   map[string][]string
+	Rows    [][]string
+	PArr    *[2]*int
+	After   int
+}
+
 type staticType struct {
 	name string
 	t    reflect.Type
@@ -129,6 +143,7 @@ func init() {
 		{"ST3", reflect.TypeOf(ST3{}), runStatic[ST3]},
 		{"ST4", reflect.TypeOf(ST4{}), runStatic[ST4]},
 		{"ST5", reflect.TypeOf(ST5{}), runStatic[ST5]},
+		{"ST7", reflect.TypeOf(ST7{}), runStatic[ST7]},
 	}
 	type Window struct {
 		From, To int
@@ -245,7 +260,7 @@ func genC01Static(t *rapid.T) C01StaticCase {
 func runStatic[T any](c C01StaticCase) vrt.Verdict {
 	var zero T
 	T0 := reflect.TypeOf(zero)
-	b := shape.NewBuilder(T0, shape.ValueOpts{})
+	b := shape.NewBuilder(T0, shape.ValueOpts{NilElems: true})
 	d := c.Data
 	nl := len(d.Layers)
 	if c.Restacks < 0 || c.Restacks > nl {
@@ -447,7 +462,7 @@ func runStatic[T any](c C01StaticCase) vrt.Verdict {
 func TestC01Static(t *testing.T) {
 	vrt.Check(t, vrt.Prop[C01StaticCase]{
 		ID: "C01", Name: "static",
-		Rule: "six compiler-made config types (two of them differ only in a nested struct type called Window: a package-level text-unmarshalable one and a function-local plain one with the same printed name; scalars, durations, time.Time and pointer to it, net.IP, arrays, named scalar / slice / map / text types, user pointers incl. **int, sets, nested / pointer / embedded structs incl. an embedded pointer, and unexported / dials:\"-\" / chan / func fields between retained ones) stacked through the public path Config[T] -> View from 0..6 sources, static and watching ones interleaved in any argument order, followed by later updates of any of the watchers (in a third of the cases every watcher rewrites ONE long-lived value in place and re-reports it; in a third, watchers call Done after their last update while others still report); defaults and layers from per-(layer,leaf) seeds; " +
+		Rule: "seven compiler-made config types (one with arrays, slices and maps of nil-able elements in which values leave some elements / map values nil; two of them differ only in a nested struct type called Window: a package-level text-unmarshalable one and a function-local plain one with the same printed name; scalars, durations, time.Time and pointer to it, net.IP, arrays, named scalar / slice / map / text types, user pointers incl. **int, sets, nested / pointer / embedded structs incl. an embedded pointer, and unexported / dials:\"-\" / chan / func fields between retained ones) stacked through the public path Config[T] -> View from 0..6 sources, static and watching ones interleaved in any argument order, followed by later updates of any of the watchers (in a third of the cases every watcher rewrites ONE long-lived value in place and re-reports it; in a third, watchers call Done after their last update while others still report); defaults and layers from per-(layer,leaf) seeds; " +
 			"oracle: the same pure reference model as C01/reflect, leaf by leaf by field name; non-trivial = >=2 static layers with a leaf set by >=2 of them; distinct = distinct case JSON",
 		Assumptions: []string{"a watcher update replaces that source's whole slot (documented re-stack semantics)"},
 		Gen:         genC01Static,
